@@ -397,6 +397,20 @@ class Interp(object):
             binop = ast.BinOp(left=load, op=node.op, right=node.value)
             ast.copy_location(binop, node)
             node._binop = binop
+        # list += iterable is an in-place extend
+        if isinstance(node.op, ast.Add):
+            outs0 = self.eval(st, load)
+            if len(outs0) == 1 and outs0[0][1] == "val" and isinstance(outs0[0][2], Ref) and outs0[0][0].obj(outs0[0][2]).kind == "list":
+                s0, _, lref = outs0[0]
+                res0 = []
+                from .abscall import list_method as _lm
+                for (s1, k1, rv) in self.eval(s0, node.value):
+                    if k1 != "val":
+                        res0.append((s1, k1, rv))
+                        continue
+                    for (s2, k2, _) in _lm(self, s1, lref, s1.wobj(lref), "extend", [rv], {}, node):
+                        res0.extend(self.assign(s2, node.target, lref))
+                return res0
         res = []
         is_inc1 = (self.track_len and isinstance(node.target, ast.Name) and isinstance(node.op, ast.Add)
                    and isinstance(node.value, ast.Constant) and node.value.value == 1)
@@ -949,6 +963,8 @@ class Interp(object):
                             raised.append((s2, k, v))
                         elif isinstance(v, (tuple, list)):
                             nxt.append((s2, vals + list(v)))
+                        elif isinstance(v, Ref) and s2.obj(v).kind == "list" and s2.obj(v).items is not None:
+                            nxt.append((s2, vals + list(s2.obj(v).items)))
                         else:
                             nxt.append((s2, vals + [("*", v)]))
                     continue
